@@ -212,6 +212,7 @@ pub fn traversal_space(tier: Tier, layouts: Lay) -> DocSpace {
     s.add_all("arguments", gen::docs_for_argument_lists(), layouts);
     s.add_all("headers", gen::docs_for_headers().into_iter().step_by(if q { 7 } else { 1 }).collect(), layouts);
     s.add_all("names", gen::docs_for_names(), layouts);
+    s.add_all("sizes", gen::docs_for_sizes(), layouts);
     s
 }
 
